@@ -33,8 +33,22 @@ func (p *deadProvider) MalevolentProvider(string)                               
 
 // newLightClient builds the real light client over a trusted store that holds the given
 // (light-client verified) light blocks.
+// lightClients counts the clients built; every second one gets its headers saved newest first.
+var lightClients int
+
 func newLightClient(chainID string, lbs ...*cmttypes.LightBlock) *light.Client {
-	store := cmtlightdb.New(cmtdb.NewMemDB(), "")
+	// the production wrapper (store.go prunedStore); the headers are saved through it in the order
+	// given, which is not always ascending: a node also stores an OLDER header when a past height is
+	// verified on demand
+	store := light.NewVerifPrunedStore(cmtlightdb.New(cmtdb.NewMemDB(), ""))
+	lightClients++
+	if lightClients%2 == 0 {
+		rev := make([]*cmttypes.LightBlock, 0, len(lbs))
+		for i := len(lbs) - 1; i >= 0; i-- {
+			rev = append(rev, lbs[i])
+		}
+		lbs = rev
+	}
 	for _, lb := range lbs {
 		if err := store.SaveLightBlock(lb); err != nil {
 			panic(err)
